@@ -31,6 +31,9 @@ VARIABLES A, B, gen, op, d, hist, turn
 vars == <<A, B, gen, op, d, hist, turn>>
 
 KeyFields == {"sid", "tomo", "obj", "cls"}
+\* selection / removal / splitting take any field name: also the real-valued score (a token here; the interpretation
+\* maps tokens to fractional, partly negative values, so the clause is exact selection by the float value)
+SelFields == KeyFields \cup {"score"}
 
 \* JSON projection of a table: one array [sid, tomo, obj, score, cls, tag] per row
 PJ(T) == [i \in DOMAIN T |-> <<T[i].sid, T[i].tomo, T[i].obj, T[i].score, T[i].cls, T[i].tag>>]
@@ -136,8 +139,8 @@ Redraw == /\ Sched /\ d < MaxDepth
 Turn(k) == turn = "any" \/ turn = k
 
 Ops ==  /\ d < MaxDepth
-        /\ \/ Turn("subset") /\ \E f \in KeyFields : \E vals \in Offered(f) : Subset(f, vals)
-           \/ Turn("remove") /\ \E f \in KeyFields : \E vals \in Offered(f) : RemoveRows(f, vals)
+        /\ \/ Turn("subset") /\ \E f \in SelFields : \E vals \in Offered(f) : Subset(f, vals)
+           \/ Turn("remove") /\ \E f \in SelFields : \E vals \in Offered(f) : RemoveRows(f, vals)
            \/ Turn("split") /\ \E f \in SplitFields : Split(f)
            \/ Turn("intersect") /\ \E f \in KeyFields : Intersect(f)
            \/ Turn("dropdup") /\ \E dupf \in {"sid", "obj"} : \E asc \in BOOLEAN : DropDup(dupf, asc)
